@@ -9,16 +9,19 @@ pub trait VRecv: Sized {
             old(self).rem().len() == 0 ==> r is Err && final(self).rem() == old(self).rem(),
             old(self).rem().len() > 0 ==> r == Ok::<DltMessage, VxRecvError>(old(self).rem()[0]) && final(self).rem() == old(self).rem().skip(1);
 }
-// evmap write handle for the shared lifecycle table (`lcs_w`, R12): `update` replaces the entry of a key in the writer's pending
-// state, `refresh` makes everything pending visible to the readers (ASSUMED contract of evmap)
+// evmap write handle for the shared lifecycle table (`lcs_w`, R12). wview(): the writer's state = what the readers will see after
+// the next refresh; visible(): what they see now. `update` replaces the entry of a key, `empty` removes it (both in the writer's
+// state only), `refresh` publishes the writer's state (ASSUMED contract of evmap)
 pub trait VLcTab: Sized {
-    spec fn pending(&self) -> Map<u32, Lifecycle>;
+    spec fn wview(&self) -> Map<u32, Lifecycle>;
     spec fn visible(&self) -> Map<u32, Lifecycle>;
     spec fn visible_msgs(&self) -> nat;   // the sum of nr_msgs over the visible entries
     fn vx_update(&mut self, id: u32, item: Lifecycle)
-        ensures final(self).pending() == old(self).pending().insert(id, item), final(self).visible() == old(self).visible(), final(self).visible_msgs() == old(self).visible_msgs();
+        ensures final(self).wview() == old(self).wview().insert(id, item), final(self).visible() == old(self).visible(), final(self).visible_msgs() == old(self).visible_msgs();
+    fn empty(&mut self, id: u32)
+        ensures final(self).wview() == old(self).wview().remove(id), final(self).visible() == old(self).visible(), final(self).visible_msgs() == old(self).visible_msgs();
     fn refresh(&mut self)
-        ensures final(self).visible() == old(self).visible().union_prefer_right(old(self).pending()), final(self).pending() == old(self).pending();
+        ensures final(self).visible() == old(self).wview(), final(self).wview() == old(self).wview();
 }
 // the output closure (R12). `vis` is a ghost argument added at every call (R19): what a reader of the shared lifecycle table sees
 // at the moment of the call. C06 is the precondition: the lifecycle of the message is visible, with the message's ECU.
@@ -158,6 +161,34 @@ pub open spec fn pos_inv(pos: Pos, m: Map<DltChar4, Seq<Lifecycle>>) -> bool {
 pub open spec fn tab_ok(t: Map<u32, Lifecycle>, pos: Pos) -> bool {
     forall|id: u32| #[trigger] t.dom().contains(id) && pos.dom().contains(id) ==> t[id].ecu == pos[id].0
 }
+// C07: the writer's state lists no lifecycle that is not in the map (a merged lifecycle is removed from the map), and every visible
+// lifecycle of the map is still in the writer's state (a refresh never makes one disappear)
+#[verifier::opaque]
+pub open spec fn wdom_ok(pos: Pos, vis: Map<u32, Lifecycle>, w: Map<u32, Lifecycle>) -> bool {
+    &&& forall|id: u32| #[trigger] w.dom().contains(id) ==> pos.dom().contains(id)
+    &&& forall|id: u32| #[trigger] vis.dom().contains(id) && pos.dom().contains(id) ==> w.dom().contains(id)
+}
+// a lifecycle that is still buffered was never written to the table
+#[verifier::opaque]
+pub open spec fn nb_ok(buffered: Set<u32>, w: Map<u32, Lifecycle>) -> bool {
+    forall|id: u32| #[trigger] buffered.contains(id) ==> !w.dom().contains(id)
+}
+// no buffered lifecycle is marked for a regular refresh
+pub open spec fn marks_ok(buffered: Set<u32>, marks: Seq<u32>) -> bool {
+    forall|x: u32| #[trigger] marks.contains(x) ==> !buffered.contains(x)
+}
+pub proof fn lemma_nb_after_refresh(buffered: Set<u32>, w: Map<u32, Lifecycle>, w2: Map<u32, Lifecycle>, marks: Seq<u32>)
+    requires nb_ok(buffered, w), marks_ok(buffered, marks), forall|id: u32| #[trigger] w2.dom().contains(id) ==> w.dom().contains(id) || marks.contains(id),
+    ensures nb_ok(buffered, w2),
+{ reveal(nb_ok); }
+pub proof fn lemma_nb_empty(buffered: Set<u32>, w: Map<u32, Lifecycle>)
+    requires forall|x: u32| !buffered.contains(x),
+    ensures nb_ok(buffered, w),
+{ reveal(nb_ok); }
+pub proof fn lemma_nb_use(buffered: Set<u32>, w: Map<u32, Lifecycle>, id: u32)
+    requires nb_ok(buffered, w), buffered.contains(id),
+    ensures !w.dom().contains(id),
+{ reveal(nb_ok); }
 // every lifecycle in the map is still buffered or already visible
 #[verifier::opaque]
 pub open spec fn known_ok(pos: Pos, buffered: Set<u32>, vis: Map<u32, Lifecycle>) -> bool {
@@ -172,8 +203,8 @@ pub open spec fn queued_ok(pos: Pos, q: Seq<DltMessage>) -> bool {
 // (fewer than 2^32 lifecycles per process; the entries of a pre-populated table came from the same counter). Only called, in
 // proof hints, for the id of a lifecycle that Lifecycle::new has just created.
 #[verifier::external_body]
-pub proof fn axiom_fresh_lc_id(id: u32, pos: Pos, pen: Map<u32, Lifecycle>, vis: Map<u32, Lifecycle>)
-    ensures !pos.dom().contains(id), !pen.dom().contains(id), !vis.dom().contains(id),
+pub proof fn axiom_fresh_lc_id(id: u32, pos: Pos, pen: Map<u32, Lifecycle>, vis: Map<u32, Lifecycle>, marks: Seq<u32>)
+    ensures !pos.dom().contains(id), !pen.dom().contains(id), !vis.dom().contains(id), !marks.contains(id),
 {}
 
 pub open spec fn list_at(m: Map<DltChar4, Seq<Lifecycle>>, e: DltChar4) -> Seq<Lifecycle> { if m.dom().contains(e) { m[e] } else { Seq::<Lifecycle>::empty() } }
@@ -262,16 +293,18 @@ pub proof fn lemma_step_same(pos: Pos, m0: Map<DltChar4, Seq<Lifecycle>>, e: Dlt
     lemma_pos_at(pos, m0.insert(e, l1), e, l1.len() - 1);
 }
 // (b) a freshly created lifecycle x is appended (and inserted into the set of buffered lifecycles)
-pub proof fn lemma_step_new(pos: Pos, m0: Map<DltChar4, Seq<Lifecycle>>, e: DltChar4, l1: Seq<Lifecycle>, x: Lifecycle, buffered: Set<u32>, vis: Map<u32, Lifecycle>, pen: Map<u32, Lifecycle>, q: Seq<DltMessage>)
+pub proof fn lemma_step_new(pos: Pos, m0: Map<DltChar4, Seq<Lifecycle>>, e: DltChar4, l1: Seq<Lifecycle>, x: Lifecycle, buffered: Set<u32>, vis: Map<u32, Lifecycle>, pen: Map<u32, Lifecycle>, q: Seq<DltMessage>, marks: Seq<u32>)
     requires
         pos_inv(pos, m0), same_ids(l1, list_at(m0, e)),
-        !pos.dom().contains(x.id) && !pen.dom().contains(x.id) && !vis.dom().contains(x.id),
-        known_ok(pos, buffered, vis), tab_ok(vis, pos), tab_ok(pen, pos), queued_ok(pos, q),
+        !pos.dom().contains(x.id) && !pen.dom().contains(x.id) && !vis.dom().contains(x.id) && !marks.contains(x.id),
+        known_ok(pos, buffered, vis), tab_ok(vis, pos), tab_ok(pen, pos), queued_ok(pos, q), wdom_ok(pos, vis, pen), nb_ok(buffered, pen),
     ensures ({
         let pos1 = pos.insert(x.id, (e, l1.len() as int));
         pos_inv(pos1, m0.insert(e, l1.push(x))) && known_ok(pos1, buffered.insert(x.id), vis) && tab_ok(vis, pos1) && tab_ok(pen, pos1) && queued_ok(pos1, q)
+            && wdom_ok(pos1, vis, pen) && nb_ok(buffered.insert(x.id), pen)
     }),
 {
+    reveal(wdom_ok); reveal(nb_ok);
     let pos1 = pos.insert(x.id, (e, l1.len() as int));
     lemma_pos_same_ids(pos, m0, e, l1);
     lemma_pos_push(pos, m0.insert(e, l1), e, x);
@@ -281,17 +314,22 @@ pub proof fn lemma_step_new(pos: Pos, m0: Map<DltChar4, Seq<Lifecycle>>, e: DltC
 }
 // (c) the last lifecycle (id `from`) was merged into its predecessor (id `to`), the queued messages re-labelled, `from` removed
 // from the map and from the set of buffered lifecycles
-pub proof fn lemma_step_merge(pos: Pos, m0: Map<DltChar4, Seq<Lifecycle>>, e: DltChar4, l1: Seq<Lifecycle>, buffered: Set<u32>, vis: Map<u32, Lifecycle>, pen: Map<u32, Lifecycle>, q: Seq<DltMessage>, q2: Seq<DltMessage>)
+pub proof fn lemma_step_merge(pos: Pos, m0: Map<DltChar4, Seq<Lifecycle>>, e: DltChar4, l1: Seq<Lifecycle>, buffered: Set<u32>, vis: Map<u32, Lifecycle>, pen0: Map<u32, Lifecycle>, pen: Map<u32, Lifecycle>, q: Seq<DltMessage>, q2: Seq<DltMessage>, marks: Seq<u32>)
     requires
         pos_inv(pos, m0), same_ids(l1, list_at(m0, e)), l1.len() >= 2,
-        known_ok(pos, buffered, vis), tab_ok(vis, pos), tab_ok(pen, pos), queued_ok(pos, q),
+        known_ok(pos, buffered, vis), tab_ok(vis, pos), tab_ok(pen0, pos), queued_ok(pos, q), wdom_ok(pos, vis, pen0), nb_ok(buffered, pen0),
+        // the merged lifecycle is not (or no longer) in the writer's state of the table
+        pen == pen0 || pen == pen0.remove(l1.last().id),
+        !pen.dom().contains(l1.last().id), // O:table.no_merged_lifecycle (a merged lifecycle is not listed in the table)
         q2.len() == q.len(), forall|i: int| 0 <= i < q.len() ==> #[trigger] q2[i] == relabel(q[i], l1.last().id, l1[l1.len() - 2].id),
     ensures ({
         let pos1 = pos.remove(l1.last().id);
         pos_inv(pos1, m0.insert(e, l1.drop_last())) && known_ok(pos1, buffered.remove(l1.last().id), vis) && tab_ok(vis, pos1) && tab_ok(pen, pos1) && queued_ok(pos1, q2)
             && pos1.dom().contains(l1[l1.len() - 2].id) && pos1[l1[l1.len() - 2].id].0 == e
+            && wdom_ok(pos1, vis, pen) && nb_ok(buffered.remove(l1.last().id), pen)
     }),
 {
+    reveal(wdom_ok); reveal(nb_ok);
     let from = l1.last().id;
     let to = l1[l1.len() - 2].id;
     let pos1 = pos.remove(from);
@@ -324,40 +362,40 @@ pub proof fn lemma_unbuffered_sendable(pos: Pos, buffered: Set<u32>, vis: Map<u3
     ensures forall|i: int| 0 <= i < q.len() && !buffered.contains((#[trigger] q[i]).lifecycle) ==> sendable(vis, q[i]),
 { reveal(known_ok); reveal(tab_ok); reveal(queued_ok); }
 // a lifecycle of the map is confirmed: it leaves the set of buffered lifecycles, is written to the table, the table is refreshed
-pub proof fn lemma_confirm(pos: Pos, m: Map<DltChar4, Seq<Lifecycle>>, e: DltChar4, j: int, item: Lifecycle, buffered: Set<u32>, vis: Map<u32, Lifecycle>, pen: Map<u32, Lifecycle>)
+pub proof fn lemma_confirm(pos: Pos, m: Map<DltChar4, Seq<Lifecycle>>, e: DltChar4, j: int, item: Lifecycle, buffered: Set<u32>, vis: Map<u32, Lifecycle>, pen: Map<u32, Lifecycle>, marks: Seq<u32>)
     requires
         pos_inv(pos, m), map_ok(m), m.dom().contains(e), 0 <= j < m[e].len(), item.ecu == m[e][j].ecu,
-        known_ok(pos, buffered, vis), tab_ok(vis, pos), tab_ok(pen, pos),
+        known_ok(pos, buffered, vis), tab_ok(vis, pos), tab_ok(pen, pos), wdom_ok(pos, vis, pen), nb_ok(buffered, pen),
     ensures ({
         let id = m[e][j].id;
         let pen1 = pen.insert(id, item);
-        let vis1 = vis.union_prefer_right(pen1);
-        known_ok(pos, buffered.remove(id), vis1) && tab_ok(vis1, pos) && tab_ok(pen1, pos) && vis1.dom().contains(id)
+        known_ok(pos, buffered.remove(id), pen1) && tab_ok(pen1, pos) && pen1.dom().contains(id) && wdom_ok(pos, pen1, pen1) && nb_ok(buffered.remove(id), pen1)
     }),
 {
     lemma_pos_at(pos, m, e, j);
-    reveal(known_ok); reveal(tab_ok);
+    reveal(known_ok); reveal(tab_ok); reveal(wdom_ok); reveal(nb_ok);
     assert(lc_ok(e, m[e][j]));
 }
 // a lifecycle of the map is written to the table (no refresh yet)
-pub proof fn lemma_publish(pos: Pos, m: Map<DltChar4, Seq<Lifecycle>>, e: DltChar4, j: int, item: Lifecycle, pen: Map<u32, Lifecycle>)
-    requires pos_inv(pos, m), map_ok(m), m.dom().contains(e), 0 <= j < m[e].len(), item.ecu == m[e][j].ecu, tab_ok(pen, pos),
-    ensures tab_ok(pen.insert(m[e][j].id, item), pos),
+pub proof fn lemma_publish(pos: Pos, m: Map<DltChar4, Seq<Lifecycle>>, e: DltChar4, j: int, item: Lifecycle, vis: Map<u32, Lifecycle>, pen: Map<u32, Lifecycle>)
+    requires pos_inv(pos, m), map_ok(m), m.dom().contains(e), 0 <= j < m[e].len(), item.ecu == m[e][j].ecu, tab_ok(pen, pos), wdom_ok(pos, vis, pen),
+    ensures tab_ok(pen.insert(m[e][j].id, item), pos), wdom_ok(pos, vis, pen.insert(m[e][j].id, item)),
 {
     lemma_pos_at(pos, m, e, j);
-    reveal(tab_ok);
+    reveal(tab_ok); reveal(wdom_ok);
     assert(lc_ok(e, m[e][j]));
 }
-pub proof fn lemma_tab_union(pos: Pos, vis: Map<u32, Lifecycle>, pen: Map<u32, Lifecycle>)
-    requires tab_ok(vis, pos), tab_ok(pen, pos),
-    ensures tab_ok(vis.union_prefer_right(pen), pos),
-{ reveal(tab_ok); }
+// refresh: the writer's state becomes visible
 pub proof fn lemma_refresh(pos: Pos, buffered: Set<u32>, vis: Map<u32, Lifecycle>, pen: Map<u32, Lifecycle>)
-    requires known_ok(pos, buffered, vis), tab_ok(vis, pos), tab_ok(pen, pos),
-    ensures known_ok(pos, buffered, vis.union_prefer_right(pen)), tab_ok(vis.union_prefer_right(pen), pos),
-{ reveal(known_ok); reveal(tab_ok); }
+    requires known_ok(pos, buffered, vis), tab_ok(pen, pos), wdom_ok(pos, vis, pen),
+    ensures known_ok(pos, buffered, pen), wdom_ok(pos, pen, pen),
+{ reveal(known_ok); reveal(wdom_ok); }
+pub proof fn lemma_wdom_refresh(pos: Pos, vis: Map<u32, Lifecycle>, pen: Map<u32, Lifecycle>)
+    requires wdom_ok(pos, vis, pen),
+    ensures wdom_ok(pos, pen, pen), forall|id: u32| #[trigger] vis.dom().contains(id) && pos.dom().contains(id) ==> pen.dom().contains(id),
+{ reveal(wdom_ok); }
 pub proof fn lemma_known_monotone(pos: Pos, buffered: Set<u32>, vis: Map<u32, Lifecycle>, vis2: Map<u32, Lifecycle>)
-    requires known_ok(pos, buffered, vis), forall|id: u32| #[trigger] vis.dom().contains(id) ==> vis2.dom().contains(id),
+    requires known_ok(pos, buffered, vis), forall|id: u32| #[trigger] vis.dom().contains(id) && pos.dom().contains(id) ==> vis2.dom().contains(id),
     ensures known_ok(pos, buffered, vis2),
 { reveal(known_ok); }
 
@@ -456,14 +494,15 @@ pub proof fn lemma_pub_all(pos: Pos, mp: &VxEcuMap, bset: Set<u32>, found: Set<u
         vstd::set_lib::lemma_subset_equality(found, bset);
     }
 }
-// after the final refresh every lifecycle of the map is visible
+// after the final refresh every lifecycle of the map is visible, and nothing else is
 pub proof fn lemma_final_refresh(pos: Pos, buffered: Set<u32>, vis: Map<u32, Lifecycle>, pen: Map<u32, Lifecycle>, q: Seq<DltMessage>)
-    requires known_ok(pos, buffered, vis), tab_ok(vis, pos), tab_ok(pen, pos), all_pending(pos, buffered, pen), queued_ok(pos, q),
+    requires known_ok(pos, buffered, vis), tab_ok(pen, pos), all_pending(pos, buffered, pen), queued_ok(pos, q), wdom_ok(pos, vis, pen),
     ensures
-        tab_ok(vis.union_prefer_right(pen), pos), known_ok(pos, Set::<u32>::empty(), vis.union_prefer_right(pen)),
-        forall|i: int| 0 <= i < q.len() ==> sendable(vis.union_prefer_right(pen), #[trigger] q[i]),
+        known_ok(pos, Set::<u32>::empty(), pen), wdom_ok(pos, pen, pen),
+        forall|i: int| 0 <= i < q.len() ==> sendable(pen, #[trigger] q[i]),
+        forall|id: u32| #[trigger] pen.dom().contains(id) <==> pos.dom().contains(id),
 {
-    reveal(known_ok); reveal(tab_ok); reveal(all_pending); reveal(queued_ok);
+    reveal(known_ok); reveal(tab_ok); reveal(all_pending); reveal(queued_ok); reveal(wdom_ok);
 }
 
 pub proof fn lemma_total_2(r: Seq<Lifecycle>, a: Lifecycle, b: Lifecycle)
@@ -515,7 +554,7 @@ pub proof fn lemma_fwd_push(all: Seq<DltMessage>, log0: Seq<DltMessage>, rcv: Se
 pub fn vx_prepopulate<T: VLcTab>(mp: &mut VxEcuMap, t: &T) -> (pos: Ghost<Pos>)
     requires old(mp).m() == Map::<DltChar4, Seq<Lifecycle>>::empty(),
     ensures map_ok(final(mp).m()), final(mp).total() == t.visible_msgs(), pos_inv(pos@, final(mp).m()), tab_ok(t.visible(), pos@),
-        forall|id: u32| #[trigger] pos@.dom().contains(id) ==> t.visible().dom().contains(id),
+        forall|id: u32| #[trigger] pos@.dom().contains(id) <==> t.visible().dom().contains(id),
 { unimplemented!() }
 // `last_lcw_refresh_index += 1` (a u32 counter of table refreshes): ASSUMED not to overflow (fewer than 2^32 refreshes)
 #[verifier::external_body]
@@ -538,6 +577,12 @@ pub fn vx_clone_lc(lc: &Lifecycle) -> (r: Lifecycle)
 // the two helper closures of the function, presented as functions (R18); the captured `last_regular_refresh_index` becomes a parameter
 //@ extract src/lifecycle/mod.rs closure fn parse_lifecycles_buffered_from_stream#1
 //@   sig pub fn vx_mark_lc_id_to_refresh(id: LifecycleId, lcs_to_refresh: &mut Vec<LifecycleId>)
+//@   spec
+//@|    ensures forall|x: u32| final(lcs_to_refresh)@.contains(x) ==> old(lcs_to_refresh)@.contains(x) || x == id, // O:table.mark.frame (only this id is marked)
+//@   hint start
+//@|    let ghost v0 = lcs_to_refresh@;
+//@   hint before `^}`
+//@|    proof { assert forall|x: u32| lcs_to_refresh@.contains(x) implies v0.contains(x) || x == id by { if lcs_to_refresh@ != v0 { let i = choose|i: int| 0 <= i < lcs_to_refresh@.len() && lcs_to_refresh@[i] == x; if i < v0.len() { assert(v0[i] == x); } } } }
 //@ end
 //@ extract src/lifecycle/mod.rs closure fn parse_lifecycles_buffered_from_stream#2
 //@   sig #[verifier::loop_isolation(false)] #[verifier::allow_complex_invariants] pub fn vx_check_regular_refresh<T: VLcTab>(pos: Ghost<Pos>, last_regular_refresh_index: &mut u32, last_msg_index: u32, force_refresh: bool, lcs_to_refresh: &mut Vec<LifecycleId>, lcs_w: &mut T, ecu_map: &VxEcuMap, last_lcw_refresh_index: &mut u32)
@@ -550,31 +595,37 @@ pub fn vx_clone_lc(lc: &Lifecycle) -> (r: Lifecycle)
 //@   spec
 //@|    requires
 //@|        *old(last_regular_refresh_index) <= u32::MAX - 100_000 && last_msg_index <= u32::MAX - 100_000, // fewer than 2^32 - 100000 messages
-//@|        map_ok(ecu_map.m()), pos_inv(pos@, ecu_map.m()), tab_ok(old(lcs_w).visible(), pos@), tab_ok(old(lcs_w).pending(), pos@),
+//@|        map_ok(ecu_map.m()), pos_inv(pos@, ecu_map.m()), tab_ok(old(lcs_w).visible(), pos@), tab_ok(old(lcs_w).wview(), pos@), wdom_ok(pos@, old(lcs_w).visible(), old(lcs_w).wview()),
 //@|    ensures
-//@|        tab_ok(final(lcs_w).visible(), pos@), tab_ok(final(lcs_w).pending(), pos@), // O:publish.refresh.ecu
-//@|        forall|id: u32| #[trigger] old(lcs_w).visible().dom().contains(id) ==> final(lcs_w).visible().dom().contains(id), // O:publish.refresh.monotone (nothing that was visible disappears)
+//@|        tab_ok(final(lcs_w).visible(), pos@), tab_ok(final(lcs_w).wview(), pos@), // O:publish.refresh.ecu
+//@|        forall|id: u32| #[trigger] old(lcs_w).visible().dom().contains(id) && pos@.dom().contains(id) ==> final(lcs_w).visible().dom().contains(id), // O:publish.refresh.monotone (no lifecycle of the map that was visible disappears)
+//@|        wdom_ok(pos@, final(lcs_w).visible(), final(lcs_w).wview()), // O:table.refresh.dom
+//@|        // only marked lifecycles are written; marks are only removed
+//@|        forall|id: u32| #[trigger] final(lcs_w).wview().dom().contains(id) ==> old(lcs_w).wview().dom().contains(id) || old(lcs_to_refresh)@.contains(id), // O:table.refresh.only_marked
+//@|        forall|x: u32| final(lcs_to_refresh)@.contains(x) ==> old(lcs_to_refresh)@.contains(x),
 //@|        *final(last_regular_refresh_index) <= u32::MAX - 100_000,
 //@   hint before `lcs_w.vx_update(lc.id`
-//@|    let ghost pen_c = lcs_w.pending();
+//@|    let ghost pen_c = lcs_w.wview();
 //@   hint after `lcs_w.vx_update(lc.id`
 //@|    proof {
 //@|        let e = ecu_map.keys()[vx_vi - 1];
 //@|        assert(ecu_map.m()[e][vx_lj as int] == *lc);
-//@|        lemma_publish(pos@, ecu_map.m(), e, vx_lj as int, lcs_w.pending()[lc.id], pen_c);
-//@|        assert(lcs_w.pending() =~= pen_c.insert(lc.id, lcs_w.pending()[lc.id]));
+//@|        lemma_publish(pos@, ecu_map.m(), e, vx_lj as int, lcs_w.wview()[lc.id], lcs_w.visible(), pen_c);
+//@|        assert(lcs_w.wview() =~= pen_c.insert(lc.id, lcs_w.wview()[lc.id]));
 //@|    }
 //@   hint before `lcs_w.refresh();`
-//@|    proof { lemma_tab_union(pos@, lcs_w.visible(), lcs_w.pending()); }
+//@|    proof { lemma_wdom_refresh(pos@, lcs_w.visible(), lcs_w.wview()); }
 //@   loop inner `let mut vx_lj: usize = vs.len()`
 //@|    invariant
-//@|        vx_vi <= vx_nv, lcs_w.visible() == old(lcs_w).visible(), tab_ok(lcs_w.pending(), pos@),
+//@|        vx_vi <= vx_nv, lcs_w.visible() == old(lcs_w).visible(), tab_ok(lcs_w.wview(), pos@), wdom_ok(pos@, lcs_w.visible(), lcs_w.wview()), lcs_to_refresh@ == old(lcs_to_refresh)@,
+//@|        forall|id: u32| #[trigger] lcs_w.wview().dom().contains(id) ==> old(lcs_w).wview().dom().contains(id) || old(lcs_to_refresh)@.contains(id),
 //@|    decreases vx_nv - vx_vi,
 //@   loop inner `nr_lcs_to_update -= 1`
 //@|    invariant_except_break
 //@|        nr_lcs_to_update > 0,
 //@|    invariant
-//@|        vx_lj <= vs.len(), lcs_w.visible() == old(lcs_w).visible(), tab_ok(lcs_w.pending(), pos@),
+//@|        vx_lj <= vs.len(), lcs_w.visible() == old(lcs_w).visible(), tab_ok(lcs_w.wview(), pos@), wdom_ok(pos@, lcs_w.visible(), lcs_w.wview()), lcs_to_refresh@ == old(lcs_to_refresh)@,
+//@|        forall|id: u32| #[trigger] lcs_w.wview().dom().contains(id) ==> old(lcs_w).wview().dom().contains(id) || old(lcs_to_refresh)@.contains(id),
 //@|    decreases vx_lj,
 //@ end
 
@@ -616,7 +667,7 @@ pub fn vx_clone_lc(lc: &Lifecycle) -> (r: Lifecycle)
 //@|    requires
 //@|        forall|i: int| 0 <= i < inflow.rem().len() ==> msg_in_ok(#[trigger] inflow.rem()[i]),
 //@|        lcs_w.visible_msgs() + inflow.rem().len() <= u32::MAX,
-//@|        lcs_w.pending() =~= Map::<u32, Lifecycle>::empty(), // nothing written to the handle is waiting for a refresh
+//@|        lcs_w.wview() == lcs_w.visible(), // nothing written to the handle is waiting for a refresh
 //@|    ensures
 //@|        // every received message is forwarded exactly once, in the order received, unchanged except for a non-zero lifecycle id
 //@|        old(outflow).never_fails() ==> fwd_ok(final(outflow).log(), old(outflow).log(), inflow.rem()), // O:stream.forward
@@ -628,10 +679,12 @@ pub fn vx_clone_lc(lc: &Lifecycle) -> (r: Lifecycle)
 //@|    let ghost mut all_b: Seq<DltMessage> = Seq::empty();
 //@|    let ghost mut l_fin: Seq<Lifecycle> = Seq::empty();
 //@|    let ghost mut pos: Pos = vx_pos0@;
+//@|    let ghost vmsgs0 = lcs_w.visible_msgs();
 //@|    proof {
 //@|        assert(outflow.log() + buffered_msgs.q() =~= log0); assert(ms0.take(0) =~= Seq::<DltMessage>::empty());
 //@|        assert(known_ok(pos, buffered_lcs.ids(), lcs_w.visible())) by { reveal(known_ok); }
-//@|        assert(tab_ok(lcs_w.pending(), pos)) by { reveal(tab_ok); }
+//@|        assert(wdom_ok(pos, lcs_w.visible(), lcs_w.wview())) by { reveal(wdom_ok); }
+//@|        assert(nb_ok(buffered_lcs.ids(), lcs_w.wview())) by { reveal(nb_ok); }
 //@|        lemma_queued_empty(pos);
 //@|    }
 //@   hint before `last_msg_index = msg.index;`
@@ -640,6 +693,7 @@ pub fn vx_clone_lc(lc: &Lifecycle) -> (r: Lifecycle)
 //@|    let ghost tot0 = ecu_map.total();
 //@|    let ghost pos0 = pos;
 //@|    let ghost buf0 = buffered_lcs.ids();
+//@|    let ghost w0 = lcs_w.wview();
 //@|    proof {
 //@|        assert(m_in == ms0[k]);
 //@|        assert(ms0.skip(k).skip(1) =~= ms0.skip(k + 1));
@@ -699,7 +753,9 @@ pub fn vx_clone_lc(lc: &Lifecycle) -> (r: Lifecycle)
 //@|            lemma_total_push(rest0.drop_last(), g_prev);
 //@|            lemma_list_ok_push(m_in.ecu, rest0.drop_last(), g_prev);
 //@|            assert(same_ids(l_fin, l0)) by { assert forall|i: int| 0 <= i < l_fin.len() implies (#[trigger] l_fin[i]).id == l0[i].id by { if i < l_fin.len() - 2 { assert(l_fin[i] == rest0.drop_last()[i]); assert(l0[i] == rest0.drop_last()[i]); } else if i == l_fin.len() - 2 { assert(l0[i] == rest0.last()); } } }
-//@|            lemma_step_merge(pos0, map0, e, l_fin, buf0, lcs_w.visible(), lcs_w.pending(), q_a, buffered_msgs.q());
+//@|            if buf0.contains(g_lc2.id) { lemma_nb_use(buf0, w0, g_lc2.id); }
+//@|            assert(!lcs_w.wview().dom().contains(g_lc2.id)); // O:table.no_merged_lifecycle (a lifecycle that is merged into its predecessor is not, or no longer, listed in the table)
+//@|            lemma_step_merge(pos0, map0, e, l_fin, buf0, lcs_w.visible(), w0, lcs_w.wview(), q_a, buffered_msgs.q(), lcs_to_refresh@);
 //@|            pos = pos0.remove(g_lc2.id);
 //@|            assert(buffered_lcs.ids() =~= buf0.remove(g_lc2.id));
 //@|            if nf { lemma_fwd_relabel(log_a, q_a, buffered_msgs.q(), log0, ms0.take(k - 1), g_lc2.id, g_prev.id); }
@@ -710,8 +766,8 @@ pub fn vx_clone_lc(lc: &Lifecycle) -> (r: Lifecycle)
 //@|            lemma_list_ok_push(m_in.ecu, rest0.push(g_lc2), g_new);
 //@|            let l1 = rest0.push(g_lc2);
 //@|            assert(same_ids(l1, l0)) by { assert forall|i: int| 0 <= i < l1.len() implies (#[trigger] l1[i]).id == l0[i].id by { if i < rest0.len() { assert(l1[i] == rest0[i]); assert(l0[i] == rest0[i]); } } }
-//@|            axiom_fresh_lc_id(g_new.id, pos0, lcs_w.pending(), lcs_w.visible());
-//@|            lemma_step_new(pos0, map0, e, l1, g_new, buf0, lcs_w.visible(), lcs_w.pending(), buffered_msgs.q());
+//@|            axiom_fresh_lc_id(g_new.id, pos0, lcs_w.wview(), lcs_w.visible(), lcs_to_refresh@);
+//@|            lemma_step_new(pos0, map0, e, l1, g_new, buf0, lcs_w.visible(), lcs_w.wview(), buffered_msgs.q(), lcs_to_refresh@);
 //@|            pos = pos0.insert(g_new.id, (e, l1.len() as int));
 //@|            assert(buffered_lcs.ids() =~= buf0.insert(g_new.id));
 //@|        }
@@ -721,7 +777,8 @@ pub fn vx_clone_lc(lc: &Lifecycle) -> (r: Lifecycle)
 //@|        assert(pos_inv(pos, map0.insert(e, if remove_last_lc { l_fin.drop_last() } else { l_fin }))); // O:publish.step.pos
 //@|        assert(queued_ok(pos, buffered_msgs.q())); // O:publish.step.queued (every queued message's lifecycle is a lifecycle of its ECU in the map)
 //@|        assert(known_ok(pos, buffered_lcs.ids(), lcs_w.visible())); // O:publish.step.known (every lifecycle in the map is buffered or visible)
-//@|        assert(tab_ok(lcs_w.visible(), pos) && tab_ok(lcs_w.pending(), pos));
+//@|        assert(tab_ok(lcs_w.visible(), pos) && tab_ok(lcs_w.wview(), pos));
+//@|        assert(wdom_ok(pos, lcs_w.visible(), lcs_w.wview()) && nb_ok(buffered_lcs.ids(), lcs_w.wview()) && marks_ok(buffered_lcs.ids(), lcs_to_refresh@)); // O:table.step.dom
 //@|        assert(located(pos, msg)); // O:stream.assigned_ecu (the id denotes a lifecycle of the message's own ECU)
 //@|    }
 //@   hint after `let _removed = ecu_lcs.remove(`
@@ -734,8 +791,8 @@ pub fn vx_clone_lc(lc: &Lifecycle) -> (r: Lifecycle)
 //@|        assert(buffered_lcs.ids().contains(lc.id)); l_fin = ecu_lcs@; lemma_total_push(l0, lc); assert(l_fin == l0.push(lc)); lemma_list_ok_push(m_in.ecu, l0, lc);
 //@|        assert(list_at(map0, m_in.ecu) == l0);
 //@|        assert(same_ids(l0, l0));
-//@|        axiom_fresh_lc_id(lc.id, pos0, lcs_w.pending(), lcs_w.visible());
-//@|        lemma_step_new(pos0, map0, m_in.ecu, l0, lc, buf0, lcs_w.visible(), lcs_w.pending(), buffered_msgs.q());
+//@|        axiom_fresh_lc_id(lc.id, pos0, lcs_w.wview(), lcs_w.visible(), lcs_to_refresh@);
+//@|        lemma_step_new(pos0, map0, m_in.ecu, l0, lc, buf0, lcs_w.visible(), lcs_w.wview(), buffered_msgs.q(), lcs_to_refresh@);
 //@|        pos = pos0.insert(lc.id, (m_in.ecu, 0int));
 //@|        assert(buffered_lcs.ids() =~= buf0.insert(lc.id));
 //@|        assert(located(pos, msg));
@@ -751,7 +808,8 @@ pub fn vx_clone_lc(lc: &Lifecycle) -> (r: Lifecycle)
 //@|        assert(nf ==> queue_inv(&buffered_lcs, &buffered_msgs)); // O:stream.mid.queue
 //@|        all_b = outflow.log() + buffered_msgs.q();
 //@|        assert(pos_inv(pos, ecu_map.m())); // O:publish.mid.pos
-//@|        assert(queued_ok(pos, buffered_msgs.q()) && known_ok(pos, buffered_lcs.ids(), lcs_w.visible()) && tab_ok(lcs_w.visible(), pos) && tab_ok(lcs_w.pending(), pos)); // O:publish.mid
+//@|        assert(queued_ok(pos, buffered_msgs.q()) && known_ok(pos, buffered_lcs.ids(), lcs_w.visible()) && tab_ok(lcs_w.visible(), pos) && tab_ok(lcs_w.wview(), pos)); // O:publish.mid
+//@|        assert(wdom_ok(pos, lcs_w.visible(), lcs_w.wview()) && nb_ok(buffered_lcs.ids(), lcs_w.wview()) && marks_ok(buffered_lcs.ids(), lcs_to_refresh@)); // O:table.mid.dom
 //@|        assert(located(pos, msg));
 //@|    }
 //@   hint before 1 `let msg = buffered_msgs.pop_front().unwrap();`
@@ -760,14 +818,14 @@ pub fn vx_clone_lc(lc: &Lifecycle) -> (r: Lifecycle)
 //@   hint before `buffered_lcs.remove(&lc.id);`
 //@|    let ghost b_pre = buffered_lcs.ids();
 //@|    let ghost vis_pre = lcs_w.visible();
-//@|    let ghost pen_pre = lcs_w.pending();
+//@|    let ghost pen_pre = lcs_w.wview();
 //@   hint before `let mut prune_lc_id = lc.id;`
 //@|    proof {
-//@|        let item = lcs_w.pending()[lc.id];
+//@|        let item = lcs_w.wview()[lc.id];
 //@|        let e = ecu_map.keys()[vx_vi - 1];
 //@|        assert(ecu_map.m()[e][vx_lj as int] == *lc);
-//@|        lemma_confirm(pos, ecu_map.m(), e, vx_lj as int, item, b_pre, vis_pre, pen_pre);
-//@|        assert(lcs_w.pending() =~= pen_pre.insert(lc.id, item));
+//@|        lemma_confirm(pos, ecu_map.m(), e, vx_lj as int, item, b_pre, vis_pre, pen_pre, lcs_to_refresh@);
+//@|        assert(lcs_w.wview() =~= pen_pre.insert(lc.id, item));
 //@|        assert(buffered_lcs.ids() =~= b_pre.remove(lc.id));
 //@|        lemma_unbuffered_sendable(pos, buffered_lcs.ids(), lcs_w.visible(), buffered_msgs.q());
 //@|    }
@@ -788,24 +846,26 @@ pub fn vx_clone_lc(lc: &Lifecycle) -> (r: Lifecycle)
 //@|        lemma_queued_push(pos, buffered_msgs.q(), msg);
 //@|    }
 //@|    let ghost vis_r3 = lcs_w.visible();
+//@|    let ghost w_r3 = lcs_w.wview();
 //@   hint before last `outflow.send(msg`
 //@|    proof {
 //@|        lemma_known_monotone(pos, buffered_lcs.ids(), vis_r3, lcs_w.visible());
 //@|        lemma_one_sendable(pos, buffered_lcs.ids(), lcs_w.visible(), msg);
+//@|        lemma_nb_empty(buffered_lcs.ids(), lcs_w.wview());
 //@|    }
 //@   hint before `let mut nr_lcs_to_update = buffered_lcs.len();`
 //@|    let ghost bset = buffered_lcs.ids();
 //@|    let ghost mut found: Set<u32> = Set::empty();
 //@|    let ghost vis_f = lcs_w.visible();
 //@   hint after `let mut nr_lcs_to_update = buffered_lcs.len();`
-//@|    proof { lemma_pub_init(pos, &ecu_map, bset, lcs_w.pending()); }
+//@|    proof { lemma_pub_init(pos, &ecu_map, bset, lcs_w.wview()); }
 //@   hint before `let mut vx_lj: usize = vs.len();`
 //@|    proof {
 //@|        lemma_pub_enter(pos, &ecu_map, bset, found, vx_vi as int);
 //@|        if vs.len() == 0 { lemma_pub_leave(pos, &ecu_map, bset, found, vx_vi as int); }
 //@|    }
 //@   hint before `if buffered_lcs.contains(&lc.id) {`
-//@|    let ghost pen_p = lcs_w.pending();
+//@|    let ghost pen_p = lcs_w.wview();
 //@|    proof {
 //@|        assert(ecu_map.m()[ecu_map.keys()[vx_vi - 1]][vx_lj as int] == *lc);
 //@|        if !bset.contains(lc.id) {
@@ -816,15 +876,15 @@ pub fn vx_clone_lc(lc: &Lifecycle) -> (r: Lifecycle)
 //@   hint after last `lcs_w.vx_update(lc.id`
 //@|    proof {
 //@|        let e = ecu_map.keys()[vx_vi - 1];
-//@|        let item = lcs_w.pending()[lc.id];
-//@|        assert(lcs_w.pending() =~= pen_p.insert(lc.id, item));
-//@|        lemma_publish(pos, ecu_map.m(), e, vx_lj as int, item, pen_p);
+//@|        let item = lcs_w.wview()[lc.id];
+//@|        assert(lcs_w.wview() =~= pen_p.insert(lc.id, item));
+//@|        lemma_publish(pos, ecu_map.m(), e, vx_lj as int, item, vis_f, pen_p);
 //@|        lemma_pub_found(pos, &ecu_map, bset, found, pen_p, item, nr_lcs_to_update as int, vx_vi as int, vx_lj as int);
 //@|        found = found.insert(lc.id);
 //@|        if vx_lj == 0 { lemma_pub_leave(pos, &ecu_map, bset, found, vx_vi as int); }
 //@|    }
 //@   hint before last `lcs_w.refresh();`
-//@|    let ghost pen_f = lcs_w.pending();
+//@|    let ghost pen_f = lcs_w.wview();
 //@|    proof { lemma_pub_all(pos, &ecu_map, bset, found, pen_f, nr_lcs_to_update as int, vx_vi as int); }
 //@   hint after last `vx_bump(&mut last_lcw_refresh_index);`
 //@|    let ghost all_e = outflow.log() + buffered_msgs.q();
@@ -832,7 +892,12 @@ pub fn vx_clone_lc(lc: &Lifecycle) -> (r: Lifecycle)
 //@|        lemma_final_refresh(pos, bset, vis_f, pen_f, buffered_msgs.q());
 //@|    }
 //@   hint before `^lcs_w`
-//@|    proof { if nf { assert(ms0.take(k) =~= ms0); assert(outflow.log() + buffered_msgs.q() =~= outflow.log()); } }
+//@|    proof {
+//@|        if nf { assert(ms0.take(k) =~= ms0); assert(outflow.log() + buffered_msgs.q() =~= outflow.log()); }
+//@|        assert(lcs_w.visible() == lcs_w.wview() || !(lcs_w.visible() == lcs_w.wview()));
+//@|        assert(forall|id: u32| #[trigger] lcs_w.wview().dom().contains(id) ==> pos.dom().contains(id)) by { reveal(wdom_ok); } // O:table.final.listed (the final table lists only lifecycles of the map: no merged lifecycle)
+//@|        assert(nf ==> ecu_map.total() == vmsgs0 + ms0.len()); // O:table.final.total (the message counts add up to the number of messages)
+//@|    }
 //@   loop inner `inflow.recv()`
 //@|    invariant
 //@|        0 <= k <= ms0.len(), inflow.rem() == ms0.skip(k), max_buffering_delay_us == 60_000_000,
@@ -845,8 +910,11 @@ pub fn vx_clone_lc(lc: &Lifecycle) -> (r: Lifecycle)
 //@|        outflow.log().len() >= log0.len(),
 //@|        last_regular_refresh_index <= u32::MAX - 100_000 && last_msg_index <= u32::MAX - 100_000,
 //@|        pos_inv(pos, ecu_map.m()), // O:publish.inv.pos (lifecycle ids are pairwise distinct; pos locates each)
-//@|        tab_ok(lcs_w.visible(), pos) && tab_ok(lcs_w.pending(), pos), // O:publish.inv.ecu (a table entry carries the ECU its lifecycle is stored under)
+//@|        tab_ok(lcs_w.visible(), pos) && tab_ok(lcs_w.wview(), pos), // O:publish.inv.ecu (a table entry carries the ECU its lifecycle is stored under)
 //@|        known_ok(pos, buffered_lcs.ids(), lcs_w.visible()), // O:publish.inv.known (every lifecycle in the map is still buffered or already visible)
+//@|        wdom_ok(pos, lcs_w.visible(), lcs_w.wview()), // O:table.inv.dom (the table lists no lifecycle that is not in the map: no merged lifecycle)
+//@|        nb_ok(buffered_lcs.ids(), lcs_w.wview()) && marks_ok(buffered_lcs.ids(), lcs_to_refresh@), // O:table.inv.unbuffered (a buffered lifecycle is neither in the table nor marked for a refresh)
+//@|        ecu_map.total() == vmsgs0 + k, // O:table.inv.total (the message counts of all lifecycles add up to the number of messages)
 //@|        queued_ok(pos, buffered_msgs.q()), // O:publish.inv.queued (the lifecycle of every queued message is a lifecycle of its own ECU in the map)
 //@|    ensures
 //@|        nf ==> k == ms0.len(),
@@ -858,6 +926,7 @@ pub fn vx_clone_lc(lc: &Lifecycle) -> (r: Lifecycle)
 //@|        outflow.log().len() >= log0.len(),
 //@|        queued_ok(pos, buffered_msgs.q()),
 //@|        forall|i: int| 0 <= i < buffered_msgs.q().len() ==> sendable(lcs_w.visible(), #[trigger] buffered_msgs.q()[i]), // O:publish.flush.sendable
+//@|        marks_ok(buffered_lcs.ids(), lcs_to_refresh@),
 //@|    ensures
 //@|        nf ==> buffered_msgs.q().len() == 0,
 //@|    decreases buffered_msgs.q().len(),
@@ -867,7 +936,8 @@ pub fn vx_clone_lc(lc: &Lifecycle) -> (r: Lifecycle)
 //@|        nf ==> outflow.log() + buffered_msgs.q() == all_b, // O:stream.confirm.fifo
 //@|        outflow.log().len() >= log0.len(),
 //@|        nf ==> queue_inv(&buffered_lcs, &buffered_msgs), // O:stream.confirm.queue
-//@|        tab_ok(lcs_w.visible(), pos) && tab_ok(lcs_w.pending(), pos), known_ok(pos, buffered_lcs.ids(), lcs_w.visible()), queued_ok(pos, buffered_msgs.q()), // O:publish.confirm.inv
+//@|        tab_ok(lcs_w.visible(), pos) && tab_ok(lcs_w.wview(), pos), known_ok(pos, buffered_lcs.ids(), lcs_w.visible()), queued_ok(pos, buffered_msgs.q()), // O:publish.confirm.inv
+//@|        wdom_ok(pos, lcs_w.visible(), lcs_w.wview()) && nb_ok(buffered_lcs.ids(), lcs_w.wview()) && marks_ok(buffered_lcs.ids(), lcs_to_refresh@), // O:table.confirm.inv
 //@|    decreases vx_nv - vx_vi,
 //@   loop inner `let mut prune_lc_id`
 //@|    invariant
@@ -875,7 +945,8 @@ pub fn vx_clone_lc(lc: &Lifecycle) -> (r: Lifecycle)
 //@|        nf ==> outflow.log() + buffered_msgs.q() == all_b, // O:stream.confirm.inner.fifo
 //@|        outflow.log().len() >= log0.len(),
 //@|        nf ==> queue_inv(&buffered_lcs, &buffered_msgs), // O:stream.confirm.inner.queue
-//@|        tab_ok(lcs_w.visible(), pos) && tab_ok(lcs_w.pending(), pos), known_ok(pos, buffered_lcs.ids(), lcs_w.visible()), queued_ok(pos, buffered_msgs.q()), // O:publish.confirm.inner.inv
+//@|        tab_ok(lcs_w.visible(), pos) && tab_ok(lcs_w.wview(), pos), known_ok(pos, buffered_lcs.ids(), lcs_w.visible()), queued_ok(pos, buffered_msgs.q()), // O:publish.confirm.inner.inv
+//@|        wdom_ok(pos, lcs_w.visible(), lcs_w.wview()) && nb_ok(buffered_lcs.ids(), lcs_w.wview()) && marks_ok(buffered_lcs.ids(), lcs_to_refresh@), // O:table.confirm.inner.inv
 //@|    decreases vx_lj,
 //@   loop inner `prune_lc_id = msg_lc`
 //@|    invariant
@@ -884,14 +955,15 @@ pub fn vx_clone_lc(lc: &Lifecycle) -> (r: Lifecycle)
 //@|        outflow.log().len() >= log0.len(),
 //@|        queued_ok(pos, buffered_msgs.q()),
 //@|        !buffered_lcs.ids().contains(prune_lc_id), // O:publish.prune.confirmed (only messages of confirmed lifecycles are released)
+//@|        marks_ok(buffered_lcs.ids(), lcs_to_refresh@),
 //@|        forall|i: int| 0 <= i < buffered_msgs.q().len() && !buffered_lcs.ids().contains((#[trigger] buffered_msgs.q()[i]).lifecycle) ==> sendable(lcs_w.visible(), buffered_msgs.q()[i]), // O:publish.prune.sendable
 //@|    ensures
 //@|        nf ==> queue_inv(&buffered_lcs, &buffered_msgs), // O:stream.prune.queue
 //@|    decreases buffered_msgs.q().len(),
 //@   loop inner `let mut vx_lj: usize = vs.len()`
 //@|    invariant
-//@|        vx_vi <= vx_nv, lcs_w.visible() == vis_f, tab_ok(lcs_w.pending(), pos),
-//@|        pub_cnt(pos, bset, found, lcs_w.pending(), nr_lcs_to_update as int), // O:publish.final.count
+//@|        vx_vi <= vx_nv, lcs_w.visible() == vis_f, tab_ok(lcs_w.wview(), pos), wdom_ok(pos, vis_f, lcs_w.wview()),
+//@|        pub_cnt(pos, bset, found, lcs_w.wview(), nr_lcs_to_update as int), // O:publish.final.count
 //@|        nr_lcs_to_update > 0 ==> pub_done_keys(pos, &ecu_map, bset, found, vx_vi as int), // O:publish.final.visited
 //@|    ensures
 //@|        nr_lcs_to_update == 0 || vx_vi == vx_nv,
@@ -902,8 +974,8 @@ pub fn vx_clone_lc(lc: &Lifecycle) -> (r: Lifecycle)
 //@|        pub_cur(pos, &ecu_map, bset, found, vx_vi as int, vx_lj as int),
 //@|        vx_lj == 0 ==> pub_done_keys(pos, &ecu_map, bset, found, vx_vi as int),
 //@|    invariant
-//@|        vx_lj <= vs.len(), lcs_w.visible() == vis_f, tab_ok(lcs_w.pending(), pos), 1 <= vx_vi <= vx_nv,
-//@|        pub_cnt(pos, bset, found, lcs_w.pending(), nr_lcs_to_update as int),
+//@|        vx_lj <= vs.len(), lcs_w.visible() == vis_f, tab_ok(lcs_w.wview(), pos), 1 <= vx_vi <= vx_nv, wdom_ok(pos, vis_f, lcs_w.wview()),
+//@|        pub_cnt(pos, bset, found, lcs_w.wview(), nr_lcs_to_update as int),
 //@|    ensures
 //@|        nr_lcs_to_update > 0 ==> pub_done_keys(pos, &ecu_map, bset, found, vx_vi as int),
 //@|    decreases vx_lj,
